@@ -46,6 +46,9 @@ type Op struct {
 	Hints    []string `json:"hints,omitempty"`
 	Tok      string   `json:"tok,omitempty"` // hex: downstream token (I) / explicit token (D, foreign or bogus)
 	NextHop  int      `json:"nh,omitempty"`
+	// Split (full-stack executor only): the packet arrives as this many NDNLPv2 fragments
+	// (0, 1 = one frame), which the link service reassembles before dispatch.
+	Split int `json:"sp,omitempty"`
 
 	// Data
 	TokKind string `json:"tk,omitempty"`    // none | echo | foreign | bogus
@@ -220,6 +223,7 @@ type Stats struct {
 	FibChanges, CsHits, Expired, Satisfied, Evictable                             int
 	LocalhostNonLocalCandidate, LocalhostLocalExchange, LocalhostInboundRejected  int
 	RetxForwarded, HintUsed, NextHopUsed, AllowedArrivalCopy, LapsedAllowed       int
+	ReusedSatisfied                                                               int
 }
 
 func NewModel(cfg Config) *Model {
@@ -588,6 +592,9 @@ func (m *Model) Interest(idx int, op Op, wire []byte, em []Emission) *Violation 
 	}
 	e := m.pit[key]
 	life := lifetimeOf(op)
+	if e != nil && e.satisfiedAt >= 0 && len(e.in) == 0 && len(e.out) == 0 {
+		m.St.ReusedSatisfied++
+	}
 
 	// tokens this face supplied with earlier Interests still recorded in the entry (an answer
 	// to a retransmission may echo any of them, as for forwarded Data)
